@@ -25,7 +25,13 @@ Init == /\ l = 2 /\ run = 1 /\ bad = <<>> /\ Rec[1].a = "Reset" /\ kind = Rec[1]
         /\ mutinfo = NoInfo /\ nfree = 0
         /\ nframe = (IF Rec[1].kind = "frame" THEN 1 ELSE 0) /\ nlife = (IF Rec[1].kind = "life" THEN 1 ELSE 0)
         /\ pc = "start" /\ c = [frame |-> EncodeFrame(<<>>), mut |-> NoMut, img |-> 0] /\ out = NoOut /\ mem = 0
-Reset == /\ E.a = "Reset" /\ Load(E) /\ l' = l + 1 /\ run' = run + 1 /\ UNCHANGED <<bad, nfree>>
+\* every run ends in pc = "done" (each phase that was started has its event): a run cut short
+\* means harness and specification are out of step (reported as a tool error by the driver)
+Complete == skip \/ pc = "done" \/ kind = "dropped"
+Incomplete == [run |-> run, line |-> l, phase |-> "Reset", why |-> "incomplete-run", res |-> "", class |-> "",
+               sec |-> "", cls |-> "", vc |-> "", leaf |-> "", kind |-> kind]
+Reset == /\ E.a = "Reset" /\ Load(E) /\ l' = l + 1 /\ run' = run + 1 /\ UNCHANGED nfree
+         /\ bad' = IF Complete THEN bad ELSE Append(bad, Incomplete)
 Skip  == /\ skip /\ E.a # "Reset" /\ l' = l + 1 /\ UNCHANGED <<run, bad, skip, kind, mutinfo, nframe, nlife, nfree, svars>>
 
 \* a rejected event: the run is marked and skipped; the design variables are no longer tracked
@@ -98,5 +104,5 @@ Spec == Init /\ [][Next]_tvars
 \* verdict, written once the last line has been consumed
 Done == l = Len(Rec) + 1 =>
           JsonSerialize(IOEnv.OUT, [runs |-> run, events |-> Len(Rec), frames |-> nframe, lives |-> nlife,
-                                    undecided |-> nfree, bad |-> bad])
+                                    undecided |-> nfree, complete |-> Complete, bad |-> bad])
 =================================================================================
